@@ -46,24 +46,27 @@ class LoggedLock:
         self.lock = threading.RLock()
         self.depth = collections.Counter()
 
-    def __enter__(self):
-        self.lock.acquire()
-        self.depth[tid()] += 1
-        if self.depth[tid()] == 1:
-            LOG.append(("acq", tid(), self.key))
-        return self
+    def acquire(self, blocking=True, timeout=-1):
+        ok = self.lock.acquire(blocking, timeout)
+        if ok:
+            self.depth[tid()] += 1
+            if self.depth[tid()] == 1:
+                LOG.append(("acq", tid(), self.key))
+        return ok
 
-    def __exit__(self, *a):
+    def release(self):
         self.depth[tid()] -= 1
         if self.depth[tid()] == 0:
             LOG.append(("rel", tid(), self.key))
         self.lock.release()
+
+    def __enter__(self):
+        self.acquire()
+        return self
+
+    def __exit__(self, *a):
+        self.release()
         return False
-
-    acquire = __enter__
-
-    def release(self):
-        self.__exit__()
 
 
 class MutexTable(collections.defaultdict):
@@ -100,7 +103,10 @@ def instrument(storage):
 
 
 class Rec:
-    pass
+    """execution recorder (a plain object: not tracked by memento's version hashing)"""
+
+    def log(self, x):
+        LOG.append(("exec", tid(), x))
 
 
 REC = Rec()
@@ -110,14 +116,16 @@ def make_functions(cluster):
     _n[0] += 1
     modname = "c09m_%d_%d" % (os.getpid(), _n[0])
     src = ("from twosigma.memento import memento_function\nimport c09\n\n\n"
-           "@memento_function(cluster=%r, version='1')\ndef work(x):\n    c09.LOG.append(('exec', c09.tid(), x))\n    return [x, x * x, 'v']\n" % cluster)
+           "@memento_function(cluster=%r)\ndef work(x):\n    c09.REC.log(x)\n    return [x, x * x, 'v']\n\n\n"
+           "@memento_function(cluster=%r)\ndef other(x):\n    c09.REC.log(x)\n    return [x, x * x, 'v']\n" % (cluster, cluster))
     fname = "<%s>" % modname
     linecache.cache[fname] = (len(src), None, src.splitlines(True), fname)
     mod = types.ModuleType(modname)
+    mod.__package__ = "c09pkg"           # the harness module (recorder) is another package: not part of the hashed closure
     sys.modules[modname] = mod
     sys.modules.setdefault("c09", sys.modules[__name__])
     exec(compile(src, fname, "exec"), mod.__dict__)
-    return mod.work
+    return mod.work, mod.other
 
 
 def cache_accounts(storage):
@@ -143,23 +151,24 @@ def run_scenario(sc, schedule, root):
     old_table = rl._memento_fn_mutex
     rl._memento_fn_mutex = MutexTable()
     try:
-        work = make_functions(cluster)
+        work, other = make_functions(cluster)
+        fn_of = lambda x: other if x >= 100 else work         # arguments >= 100 are calls of the second function
         for x in sc["warm"]:
-            work(x)
+            fn_of(x)(x)
         if sc["cache"] == "cold" and st._memory_cache is not None:
             st._memory_cache.forget_everything()
         instrument(st)
         del LOG[:]
         keyof = {}
         for x in set(sc["args"]):
-            fr = work.fn_reference().with_args(x)
+            fr = fn_of(x).fn_reference().with_args(x)
             keyof[(fr.fn_reference.qualified_name, fr.arg_hash)] = x
 
         def thunk(i, x):
             def go():
                 _tid.i = i + 1
                 LOG.append(("start", i + 1, x))
-                return work(x)
+                return fn_of(x)(x)
             return go
         rl_file = rl.__file__
         want = lambda c: c.co_filename == rl_file
@@ -300,6 +309,8 @@ SCENARIOS = [
     dict(name="mixed-one-warm", args=[5, 6], warm=[5], cache="cold"),
     dict(name="no-cache-same-key", args=[5, 5], warm=[], cache="none"),
     dict(name="three-threads-two-keys", args=[5, 6, 5], warm=[], cache="cold"),
+    dict(name="different-functions", args=[5, 105], warm=[], cache="cold"),
+    dict(name="different-functions-one-warm", args=[105, 5], warm=[5], cache="warm"),
 ]
 
 
@@ -316,7 +327,7 @@ def main(chk, replay=None):
             return 1 if fails else 0
         finally:
             shutil.rmtree(root, ignore_errors=True)
-    chk.rule = ("family A: 7 scenarios ({cold store, warm store + cold cache, warm cache, no cache} x {same key, different keys}, 2-3 "
+    chk.rule = ("family A: 9 scenarios ({cold store, warm store + cold cache, warm cache, no cache} x {same key, different keys}, 2-3 "
                 "threads) x schedules forced at line granularity in runner_local.py: every single preemption point for both thread "
                 "orders (quick: stride 3) + seeded random schedules with up to 6 preemptions; family B: 6 pairs/triples of MemoryCache "
                 "operations x every single preemption point inside the cache's methods + random. Distinct = distinct (scenario, "
